@@ -154,6 +154,28 @@ def merge_sweep(tier, seed=0):
             fails.append(rtc.Failure("config.merge", {"dicts": snap}, "ensures", "C17-merge-update-precedence", msg))
             if len(fails) >= 4:
                 break
+    # serialize/deserialize round trip: every short string over characters whose base64 image uses '-' and '_'
+    # ('>', '?', '~', non-ASCII) at every byte offset mod 3, as value and as key; also through DASK_INTERNAL_INHERIT_CONFIG
+    alphabet = ">?~a/ \u00ff\u20ac"
+    strings = [""] + ["".join(t) for n in (1, 2, 3) for t in itertools.product(alphabet, repeat=n)]
+    for sv in strings:
+        for obj in ({"k": sv}, {sv or "e": {"n": [1, 2.5, None, True, sv]}}):
+            cases += 1
+            try:
+                back = C.deserialize(C.serialize(obj))
+                msg = None if back == obj else f"deserialize(serialize(x)) = {back!r} for x = {obj!r}"
+                if msg is None:
+                    env_cfg = C.collect_env({"DASK_INTERNAL_INHERIT_CONFIG": C.serialize(obj)})
+                    env_cfg.pop("internal_inherit_config", None)  # the variable itself is collected like any DASK_* variable
+                    if env_cfg != obj:
+                        msg = f"collect_env with DASK_INTERNAL_INHERIT_CONFIG=serialize(x) gives {env_cfg!r} for x = {obj!r}"
+            except Exception as e:  # noqa
+                msg = f"{type(e).__name__}: {e} for x = {obj!r}"
+            if msg:
+                fails.append(rtc.Failure("config.serialize", {"obj": obj}, "ensures", "C17-serialize-round-trip", msg))
+                break
+        if fails:
+            break
     # update(priority="old") and environment collection
     for _ in range(200 if tier == "quick" else 4000):
         cases += 1
@@ -178,7 +200,7 @@ def merge_sweep(tier, seed=0):
                 fails.append(rtc.Failure("config.collect_env", {"env": env}, "ensures", "C17-env-collection", f"collect_env gives {got!r}, documented {want!r}"))
         except Exception as e:  # noqa
             fails.append(rtc.Failure("config.collect_env", {"env": env}, "exception", type(e).__name__, repr(e)))
-    return {"function": "dask/config.py:merge/update/collect_env/serialize (real code)", "bounded": True, "bound": {"random nested dicts": "depth <= 3 over 5 keys incl. both spellings", "count": 400 if tier == "quick" else 8000},
+    return {"function": "dask/config.py:merge/update/collect_env/serialize (real code)", "bounded": True, "bound": {"random nested dicts": "depth <= 3 over 5 keys incl. both spellings", "count": 400 if tier == "quick" else 8000, "serialize": "all strings of length <= 3 over 8 characters (incl. > ? ~ and non-ASCII) as values and keys"},
             "cases": cases, "distinct_nontrivial": cases, "failures_found": len(fails), "wall_s": round(time.time() - t0, 2),
             "samples": [{"native_case": {"dicts": [{"a": {"b": 1}}, {"a": {"c": 2}}]}}], "failures": fails[:5]}
 
